@@ -421,7 +421,7 @@ func (w *World) events() []event {
 			evs = append(evs, event{kind: "run", task: t, name: t.Name})
 		}
 	}
-	canClock := w.canAdvanceClock(pending)
+	canClock := w.canAdvanceClock(pending) && w.clockRoom(pending) > 0
 	for i, c := range w.cs {
 		if c.closed {
 			continue
@@ -556,9 +556,9 @@ func (w *World) loop(maxSteps int) {
 			if w.idle < idleBudget && w.canAdvanceClock(w.vs.Pending()) {
 				w.idle++
 				w.res.Steps++
-				w.trace("idle +100ms")
 				w.res.Faults["idle-advance"]++
-				time.Sleep(100 * time.Millisecond)
+				got := w.sleepInterruptible(100 * time.Millisecond)
+				w.trace("idle +%v", got)
 				continue
 			}
 			w.res.Stuck = w.describeStuck()
@@ -568,6 +568,45 @@ func (w *World) loop(maxSteps int) {
 		w.res.Steps++
 		w.apply(e)
 	}
+}
+
+// maxLag bounds how long (in simulated time) a runnable task may be kept
+// waiting while the clock moves on: goroutine scheduling delays are real, but
+// not seconds long.
+const maxLag = 50 * time.Millisecond
+
+// clockRoom is how far the clock may advance right now without leaving an
+// enabled, parked task behind for more than maxLag.
+func (w *World) clockRoom(pending []*vsync.Task) time.Duration {
+	room := time.Duration(1 << 62)
+	now := time.Now()
+	for _, t := range pending {
+		if !w.vs.Enabled(t) {
+			continue
+		}
+		if r := maxLag - now.Sub(t.ParkedAt); r < room {
+			room = r
+		}
+	}
+	return room
+}
+
+// sleepInterruptible advances the fake clock by at most d, but returns as soon
+// as a goroutine woken by a timer parks at a lock operation; it reports the
+// simulated time that actually passed.
+func (w *World) sleepInterruptible(d time.Duration) time.Duration {
+	select {
+	case <-w.vs.ParkNotify:
+	default:
+	}
+	start := time.Now()
+	tm := time.NewTimer(d)
+	select {
+	case <-tm.C:
+	case <-w.vs.ParkNotify:
+		tm.Stop()
+	}
+	return time.Since(start)
 }
 
 func (w *World) allDone() bool {
@@ -721,13 +760,23 @@ func (w *World) apply(e event) {
 		if w.anyBlockingPopPending() && d > 100*time.Millisecond {
 			d = 100 * time.Millisecond
 		}
-		c.sleepLeft -= d
-		w.trace("c%d sleep %v", e.client, d)
+		if room := w.clockRoom(w.vs.Pending()); d > room {
+			d = room
+			w.res.Faults["sleep-bounded-by-runnable-task"]++
+		}
+		got := w.sleepInterruptible(d)
+		if got < d {
+			w.res.Faults["sleep-cut-by-timer-goroutine"]++
+		}
+		c.sleepLeft -= got
+		if c.sleepLeft < 0 {
+			c.sleepLeft = 0
+		}
+		w.trace("c%d sleep %v", e.client, got)
 		w.res.Faults["clock-advance"]++
-		if d >= time.Hour {
+		if got >= time.Hour {
 			w.res.Faults["clock-jump-hours"]++
 		}
-		time.Sleep(d)
 	case "close", "halfclose":
 		c := w.cs[e.client]
 		c.next++
